@@ -80,7 +80,7 @@ def table():
         add('polygamma(%d)' % m, (lambda x, m=m: sp.polygamma(m, x)), (lambda x, m=m: mp.polygamma(m, x)), [0.5, 1.0, 3.0], maxD=7)
     for a, b in [(1.5, 0.5), (0.5, 1.5), (1.0, 2.0)]:
         add('hyperu(%s,%s)' % (a, b), (lambda x, a=a, b=b: sp.hyperu(a, b, x)), (lambda x, a=a, b=b: mp.hyperu(a, b, x)), [0.5, 1.0, 3.0], maxD=6)
-    for r in [0, 1, 2, 3, 4, -1, -2]:
+    for r in [0, 1, 2, 3, 4, 5, 6, 7, 8, 9, 10, 12, 14, 16, -1, -2, -3]:
         pts = SM if r >= 0 else [-1.2, 0.7]
         add('pow(int %d)' % r, (lambda x, r=r: x ** r), (lambda x, r=r: x ** r), pts, SMC)
     for r in [0.5, 2.5, -1.5]:
@@ -93,7 +93,10 @@ def table():
     return T
 
 
-KINKED = ['absolute', 'sign', 'clip', 'minimum', 'maximum', 'abs']
+# clip bounds: generic, and a bound that is exactly zero (int, float, numpy scalar) on either side
+CLIP_BOUNDS = {'clip': (-0.5, 0.6), 'clip(0.0,0.6)': (0.0, 0.6), 'clip(-0.5,0)': (-0.5, 0), 'clip(float64 0,1.5)': (np.float64(0), 1.5),
+               'clip(-3,0.0)': (-3, 0.0)}
+KINKED = ['absolute', 'sign', 'minimum', 'maximum', 'abs'] + sorted(CLIP_BOUNDS)
 
 
 def bounds(tier):
@@ -294,10 +297,11 @@ def run_kink(u, out):
                     y = algopy.sign(x).data
                     ref = np.zeros_like(Xs)
                     ref[0] = np.sign(Xs[0])
-                elif name == 'clip':
-                    y = sp.botched_clip(-0.5, 0.6, x).data
-                    ref = np.where((Xs[0] > -0.5) & (Xs[0] < 0.6), Xs, 0.0)
-                    ref[0] = np.clip(Xs[0], -0.5, 0.6)
+                elif name.startswith('clip'):
+                    lo, hi = CLIP_BOUNDS[name]
+                    y = sp.botched_clip(lo, hi, x).data
+                    ref = np.where((Xs[0] > lo) & (Xs[0] < hi), Xs, 0.0)
+                    ref[0] = np.clip(Xs[0], lo, hi)
                 else:
                     Z = np.zeros_like(Xs)
                     Z[0] = np.roll(Xs[0].ravel(), 1).reshape(Xs[0].shape) * 0.9 + 0.11
